@@ -847,6 +847,10 @@ func askPratt(model *Model, line string, skip int, fixSlice bool) (modelAns, err
 
 // ---------- one case ----------
 
+// precCodeHasSliceFix selects the model variant that mirrors /repo: false = parseSlice as it is
+// (closing bracket consumed with p.advance()), true = after proposed_fixes/C01-slice-rbracket-ws.diff.
+const precCodeHasSliceFix = false
+
 // Go error texts that come from type checking (not modelled by the untyped
 // Pratt model).  Used ONLY to set aside perturbed inputs on which the model has
 // nothing to say; never to decide a comparison.
@@ -893,7 +897,7 @@ func precCheck(c precCase, model *Model, r *Result) {
 	var m, mfix modelAns
 	var err error
 	if c.Skip >= 0 {
-		if m, err = askPratt(model, c.Line, c.Skip, false); err != nil {
+		if m, err = askPratt(model, c.Line, c.Skip, precCodeHasSliceFix); err != nil {
 			r.Violate(Violation{Kind: "correspondence", Key: "model-crash", Detail: err.Error(), Input: input})
 			return
 		}
